@@ -85,6 +85,7 @@ class TVNorm(Functional):
             self.WP, self.CWT, self.prox_ndims, self.prox_slice = self._prox_operators(
                 input_shape, input_dtype
             )
+        super().__init__()
 
     def _call_operator(self, input_shape: Shape, input_dtype: DType) -> LinearOperator:
         """Construct operator required by __call__ method."""
